@@ -632,6 +632,8 @@ func c04GeneratedAtoms() []c04Atom {
 		c04GeneratedCache = append(c04GeneratedCache, c04TypeMatrixAtoms()...)
 		c04GeneratedCache = append(c04GeneratedCache, c04ValueMatrixAtoms()...)
 		c04GeneratedCache = append(c04GeneratedCache, c04ImportedTwinAtoms()...)
+		c04GeneratedCache = append(c04GeneratedCache, c04TwoUsersAtoms()...)
+		c04GeneratedCache = append(c04GeneratedCache, c04ConversionUsersAtoms()...)
 		seen := map[string]bool{}
 		for _, a := range c04GeneratedCache {
 			if seen[a.Name] {
@@ -760,4 +762,142 @@ func typecheckRelevant(p *goPkg) bool {
 		}
 	}
 	return found
+}
+
+// ---------------------------------------------------------------- two users of one target
+
+// c04TwoUsersAtoms: sets with SEVERAL users of the same type. What the translator learns while it translates one
+// declaration must not change what it records for the next: { T, u1 (reference form A), u2 (reference form B), p (calls
+// u2, so u2 is pulled forward) } for every pair of forms, in every order of the four declarations (which user is
+// translated first, whether T comes before or after them, whether p precedes u2). The forms of the second user reach T
+// through types the type checker derives (a variable whose type is inferred from its initialiser, a load / store
+// through a pointer parameter, a range variable, an element of a slice of pointers), next to forms that spell T.
+func c04TwoUsersAtoms() []c04Atom {
+	type form struct {
+		name   string
+		caps   string // "" any
+		decl   string // U the user's name, @ the type
+		p      string // the declaration p# that depends on the user
+		filler bool   // used for the first user
+		second bool   // used for the second user (p# does not mention the type)
+	}
+	callP := func(call string) string { return "func p#() {\n\t" + call + "\n}" }
+	forms := []form{
+		{name: "signature-parameter", decl: "func U(x @) uint64 {\n\treturn 1\n}", filler: true},
+		{name: "var-declared", decl: "func U() {\n\tvar x @\n\t_ = x\n}", p: callP("U()"), second: true},
+		{name: "var-inferred-from-conversion", caps: "num", decl: "func U() uint64 {\n\tvar w = @(5)\n\tw = w + 1\n\treturn uint64(w)\n}", p: callP("U()"), filler: true, second: true},
+		{name: "global-of-inferred-type", caps: "num", decl: "var U = @(5)", p: "func p#() uint64 {\n\treturn uint64(U) + 1\n}", second: true},
+		{name: "pointer-load-into-inferred-var", decl: "func U(p *@, q *@) {\n\tvar y = *p\n\t*q = y\n}", p: callP("U(nil, nil)"), filler: true, second: true},
+		{name: "pointer-copy", decl: "func U(p *@, q *@) {\n\t*p = *q\n}", p: callP("U(nil, nil)"), second: true},
+		{name: "pointer-load-define", decl: "func U(p *@, q *@) {\n\ty := *p\n\t*q = y\n}", p: callP("U(nil, nil)"), second: true},
+		{name: "field-load-through-inferred-pointer", caps: "struct", decl: "func U(p *@) uint64 {\n\tq := p\n\treturn q.a\n}", p: callP("U(nil)"), second: true},
+		{name: "element-of-slice-of-pointers", decl: "func U(ps []*@, q *@) {\n\t*q = *ps[0]\n}", p: callP("U(nil, nil)"), second: true},
+		{name: "range-variable", decl: "func U(xs []@, q *@) {\n\tfor _, x := range xs {\n\t\tvar y = x\n\t\t*q = y\n\t}\n}", p: callP("U(nil, nil)"), filler: true, second: true},
+	}
+	targets := []c04Ty{
+		{Name: "named-basic", Decl: "type T# uint64", Caps: "num"},
+		{Name: "struct", Decl: "type T# struct {\n\ta uint64\n\tb bool\n}", Caps: "struct"},
+		{Name: "named-slice-of-basic", Decl: "type T# []uint64", Caps: "slice"},
+	}
+	ok := func(f form, t c04Ty) bool { return f.caps == "" || f.caps == t.Caps }
+	nm := func(s, name string) string {
+		s = strings.ReplaceAll(s, "@", "T#")
+		return regexp.MustCompile(`\bU\b`).ReplaceAllString(s, name)
+	}
+	var out []c04Atom
+	for _, t := range targets {
+		for _, a := range forms {
+			if !a.filler || !ok(a, t) {
+				continue
+			}
+			for _, b := range forms {
+				if !b.second || !ok(b, t) {
+					continue
+				}
+				out = append(out, c04Atom{Name: "two-users/" + t.Name + "/" + a.name + "+" + b.name, Family: "two-users",
+					Decls: []string{t.Decl, nm(a.decl, "ua#"), nm(b.decl, "ub#"), nm(b.p, "ub#")},
+					Kinds: t.Name + " x first user " + a.name + ", second user " + b.name + " (pulled forward by p)"})
+			}
+		}
+	}
+	// three users; p depends on the last one
+	for _, t := range targets[:2] {
+		var us []form
+		for _, f := range forms {
+			if ok(f, t) && f.second {
+				us = append(us, f)
+			}
+		}
+		for k := 0; k+2 < len(us) && k < 4; k++ {
+			a, b, c := forms[0], us[k+1], us[k+2]
+			out = append(out, c04Atom{Name: "two-users/" + t.Name + "/three-users-" + a.name + "+" + b.name + "+" + c.name, Family: "two-users",
+				Decls: []string{t.Decl, nm(a.decl, "ua#"), nm(b.decl, "ub#"), nm(c.decl, "uc#"), nm(c.p, "uc#")},
+				Kinds: t.Name + " x three users; p depends on the third"})
+		}
+	}
+	return out
+}
+
+// ---------------------------------------------------------------- two plain users of one struct-to-interface conversion
+
+// c04ConversionUsersAtoms: two functions f and g that both pass struct S where interface I is expected, each in a PLAIN
+// position (the call is a statement of the function body, the right-hand side of a define, or a returned expression),
+// with f depending on g, g depending on f, or neither. (The shapes recorded as known findings — the call inside an if
+// condition's comparison, the method declared after the users — are other atoms.)
+func c04ConversionUsersAtoms() []c04Atom {
+	forms := []struct{ name, tail string }{
+		{"call-statement", "useI#(s)\n\treturn x"},
+		{"define", "a := useI#(s)\n\treturn a"},
+		{"return-expression", "return useI#(s)"},
+		{"return-sum", "return useI#(s) + x"},
+	}
+	user := func(name, dep, tail string) string {
+		return "func " + name + "() uint64 {\n\tx := " + dep + "\n\ts := S#{a: x}\n\t" + tail + "\n}"
+	}
+	var out []c04Atom
+	for i, ff := range forms {
+		for _, gf := range forms[i:] {
+			for _, dep := range []string{"f-depends-on-g", "g-depends-on-f", "independent"} {
+				fd, gd := "uint64(1)", "uint64(2)"
+				switch dep {
+				case "f-depends-on-g":
+					fd = "g#()"
+				case "g-depends-on-f":
+					gd = "f#()"
+				}
+				out = append(out, c04Atom{Name: "conversion-two-users/" + ff.name + "+" + gf.name + "/" + dep, Family: "conversion-two-users",
+					Decls: []string{dI, dS, dSM, "func useI#(i I#) uint64 {\n\treturn i.M()\n}", user("f#", fd, ff.tail), user("g#", gd, gf.tail)},
+					Kinds: "method x interface-conversion (two plain users: " + ff.name + ", " + gf.name + "; " + dep + ")"})
+			}
+		}
+	}
+	return out
+}
+
+// conversionUsersLayouts: the four supporting declarations (units 0-3) stay together as one block; the block, f (4) and
+// g (5) in every order; in one file, cut into two files at either point under both lexical orders of the file names,
+// and in three files under three assignments of names (the processing order of the files is the order of their names).
+func conversionUsersLayouts() []layout {
+	blocks := [][]int{{0, 1, 2, 3}, {4}, {5}}
+	var out []layout
+	for _, p := range permutations(3) {
+		seq := [][]int{blocks[p[0]], blocks[p[1]], blocks[p[2]]}
+		flat := func(bs [][]int) []int {
+			var u []int
+			for _, b := range bs {
+				u = append(u, b...)
+			}
+			return u
+		}
+		out = append(out, layout{Files: []layoutFile{{Name: "m_f0.go", Units: flat(seq)}}, Desc: "blocks-1-file"})
+		for cut := 1; cut <= 2; cut++ {
+			for _, nm := range [][2]string{{"a_f1.go", "z_f2.go"}, {"z_f1.go", "A_f2.go"}} {
+				out = append(out, layout{Files: []layoutFile{{Name: nm[0], Units: flat(seq[:cut])}, {Name: nm[1], Units: flat(seq[cut:])}}, Desc: "blocks-2-files"})
+			}
+		}
+		for _, nm := range [][3]string{{"a_f1.go", "m_f2.go", "z_f3.go"}, {"z_f1.go", "a_f2.go", "m_f3.go"}, {"m_f1.go", "Z_f2.go", "a_f3.go"}} {
+			out = append(out, layout{Files: []layoutFile{{Name: nm[0], Units: seq[0]}, {Name: nm[1], Units: seq[1]}, {Name: nm[2], Units: seq[2]}}, Desc: "blocks-3-files"})
+		}
+	}
+	return out
 }
